@@ -18,7 +18,7 @@ RULE = (
     "file stores produce, aware UTC, aware fixed offsets -12:00..+14:00, aware zoneinfo zones) x fresh_time (absent or any "
     "representation); instants are clustered around the zone's DST transitions (inside the repeated fall-back hour, across "
     "the spring-forward gap) or spread over years; one scenario in ten puts the naive sentinels datetime.max / datetime.min (the ends of "
-    "the range, where conversion to UTC overflows) in as fresh_time or as one store's modified time; mode 'file' uses real JsonFileStore files with os.utime. oracle = the "
+    "the range, where conversion to UTC overflows) in as fresh_time or as one store's modified time; mode 'file' uses real JsonFileStore files with os.utime (a third of them with modified times 1/64 s apart inside two seconds). oracle = the "
     "out-of-date / need oracle evaluated on epoch seconds: the exact multiset of rebuilt stores, executed calls and reads "
     "must match. non-trivial = non-UTC zone with at least two different representations among the datetimes involved; "
     "distinct by (zone, plan, instants, representations)"
@@ -273,6 +273,12 @@ def run_file(desc, rng, zone):
         else:
             kind = "spread"
             ts = sorted(rng.randint(978307200, 1735689600) for _ in range(3))
+        subsec = rng.random() < 0.35
+        if subsec:
+            # files written within two seconds of each other, 1/64 s apart (exact in binary, in microseconds and in nanoseconds): the order of the
+            # instants is beyond doubt, and a time handed in by the user (fresh_time, LiteralSource) may fall inside the same second as a file's
+            base = int(ts[0])
+            ts = sorted(base + k_ / 64 for k_ in rng.sample(range(2, 128), 3))
         if rng.random() < 0.5:
             i, j = rng.sample(range(3), 2)
             ts[i], ts[j] = ts[j], ts[i]
@@ -280,11 +286,17 @@ def run_file(desc, rng, zone):
         reg = uberjob.Registry()
         paths = [os.path.join(d, f"{n}.json") for n in "abc"]
         stores = [JsonFileStore(p) for p in paths]
+        def set_mtime(path, t):
+            ns = int(t) * 10**9 + round((t - int(t)) * 64) * 15625000
+            os.utime(path, ns=(ns, ns))
+            return os.stat(path).st_mtime_ns == ns
+
         for s_, t, v in zip(stores, ts, (1, 2, 3)):
             s_.write(v)
-            os.utime(s_.path, (t, t))
+            if not set_mtime(s_.path, t):
+                return {"status": "ok", "counters": {"fs_without_subsecond_mtime": 1}, "nontrivial": False}
         # the source is a file store, or one of the bundled stores that take / report a datetime handed in by the user in any representation
-        src_kind = rng.choice(["json", "json", "mts", "lit", "path", "pathdir"])
+        src_kind = rng.choice(["json", "json", "mts", "lit", "path"] + ([] if subsec else ["pathdir"]))
         src_rep = rand_rep(rng, 0.3)
         if src_kind == "mts":
             stores[0] = ModifiedTimeSource(represent(ts[0], src_rep))
@@ -323,7 +335,7 @@ def run_file(desc, rng, zone):
         reg.add(c, stores[2])
         fresh_epoch = fresh_rep = None
         if rng.random() < 0.7:
-            fresh_epoch = rng.choice(ts) + rng.choice([-1, 0, 1, 1800, -1800])
+            fresh_epoch = rng.choice(ts) + (rng.choice([-1 / 64, -1 / 64, 0, 1 / 64, 0.5, -0.5]) if subsec else rng.choice([-1, 0, 1, 1800, -1800]))
             fresh_rep = rand_rep(rng, 0.3)
         before = [os.stat(p).st_mtime_ns for p in paths]
         uberjob.run(plan, registry=reg, progress=None, fresh_time=None if fresh_epoch is None else represent(fresh_epoch, fresh_rep))
@@ -338,7 +350,7 @@ def run_file(desc, rng, zone):
             bad = f"files rewritten {sorted(rebuilt)} but the instants say {sorted(want)}"
         info = {"zone": zone, "style": kind, "file_mtimes_epoch": ts, "fresh": [fresh_epoch, fresh_rep], "expected_rebuilt": sorted(want),
                 "source": [src_kind, src_rep if src_kind in ("mts", "lit") else "file"]}
-        res = {"status": "ok", "counters": {"scenarios": 1, "file_scenarios": 1, f"zone_{zone}": 1, f"style_{kind}": 1, f"file_source_{src_kind}": 1,
+        res = {"status": "ok", "counters": {"scenarios": 1, "file_scenarios": 1, "file_subsecond_scenarios": int(subsec), f"zone_{zone}": 1, f"style_{kind}": 1, f"file_source_{src_kind}": 1,
                                              "mixed_representation_scenarios": int(fresh_rep is not None and fresh_rep[0] != "naive_local")},
                "sets": {"representations": ["file_naive_local"] + ([fresh_rep[0]] if fresh_rep else [])},
                "nontrivial": zone != "UTC" and fresh_rep is not None and fresh_rep[0] != "naive_local",
@@ -362,6 +374,8 @@ def finalize(agg, tier):
         reasons.append("fewer than 200 mixed naive/aware scenarios")
     if c["style_fall"] < 50 or c["style_spring"] < 50:
         reasons.append("too few scenarios around DST transitions")
+    if c["file_subsecond_scenarios"] < 30 and not c["fs_without_subsecond_mtime"]:
+        reasons.append("fewer than 30 file scenarios with sub-second modified times")
     if c["edge_fresh_max"] < 30 or c["edge_store_min"] < 30:
         reasons.append("fewer than 30 scenarios with datetime.max as fresh_time / datetime.min as a modified time")
     return reasons
